@@ -27,11 +27,14 @@ CLAIMS = {
    note=TB + "request size / method / error propagation are Gen constants extracted from the three randomised entry points; fault-injecting RngCore in the harness panics in infallible methods.",
    tech="Lean 4 proof over an RNG-script automaton + fault-injection differential execution + 257 one-bit draw variations per entry point"),
  'C03': dict(cat='proof', ref='DESIGN 5 C03',
-   text="Partial proof + differential execution. Proved in Lean for all inputs and all oracles: the external layer is exactly Algorithms 2 / 4 around the internal function - context guard, one 32-byte draw handed over "
+   text="Lean theorems for all inputs and all oracles (both build modes): the external layer is exactly Algorithms 2 / 4 around the internal function - context guard, one 32-byte draw handed over "
         "unchanged as rnd, M' = domain byte, one-byte length, ctx, then M or OID||PH(M) with the standard's OIDs and digest lengths (neither truncated nor padded) - and the signature depends on nothing but "
-        "(sk, message, context, mode, rnd). Not proved: sign_internal = Algorithm 7 line by line; that is decided on every run by byte-for-byte comparison with a Python transcription of FIPS 204 and with the Lean model.",
+        "(sk, message, context, mode, rnd); and sign_internal is Algorithm 7 written with exact arithmetic modulo q (signing_is_algorithm_7: for every private key deserialisation accepts - and generated_key_signing_is_algorithm_7 for generated keys - "
+        "every message, context, pre-hash and rnd, within fuel*l <= 65535 attempts: ExpandMask, w = NTT^-1(A_hat.NTT(y)) by exact butterflies, HighBits, c~, SampleInBall, c*s1 / c*s2 / c*t0 as canonical negacyclic products, z centred, LowBits, "
+        "the two rejection tests as written in the source (regenerated on every run and proved to be lines 23 / 28), MakeHint, sigEncode). On every run the crate is compared byte for byte with a Python transcription of FIPS 204 and with the Lean model, "
+        "including messages whose signature has exactly omega hints, omega-1, an empty first / last hint polynomial (corpus).",
    note=TB + "checks/ref/mldsa.py (FIPS 204 Algorithms 2, 4, 7, OIDs read from the standard) is the oracle for the unproved part.",
-   tech="Lean 4 proof of the external formatting layer over translated constants + differential execution against a FIPS 204 reference (all modes, key provenances, rate-edge message lengths)"),
+   tech="Lean 4 proof that sign_internal equals Algorithm 7 with exact arithmetic mod q + proof of the external formatting layer over translated constants + differential execution against a FIPS 204 reference (all modes, key provenances, rate-edge message lengths)"),
  'C04': dict(cat='proof', ref='DESIGN 5 C04',
    text="Lean theorems for every seed (both build modes): generating a pair from a seed and serialising both keys returns exactly the bytes of Algorithm 6 written with exact arithmetic modulo q (key_generation_is_algorithm_6: "
         "H(xi||k||l) split, ExpandS, ExpandA, t = NTT^-1(A_hat.NTT(s1)) + s2 mod q by exact butterflies, Power2Round, pkEncode, tr = H(pk), skEncode), as values of the model's result type (so it never panics); the RNG-driven key generation "
